@@ -34,6 +34,18 @@ CHECKS = {
         "kernels uninterpreted; exact row independence of the iterative elliptic loops (cel_iterv) and the trimesh grouping loop are not decided.",
         design="3/C06",
     ),
+    "C08": dict(
+        engine="E2",
+        technique="symbolic execution of the real getBH_level2 with the fault schedule as solver booleans (each custom field-function "
+        "invocation may raise / return None / return a wrong shape); the path driver enumerates all feasible schedules; state equality "
+        "after return or exception is an SMT obligation over all real poses",
+        text="Fault enumeration by symbolic execution: every exit point of getBH_level2 between in-place path tiling and reset is reached "
+        "by forking on symbolic fault flags; on every path the position/orientation/pixel terms and the identity of parent, children, "
+        "style, excitation and field_func of every involved object are proved unchanged, and a second call is proved term-identical.",
+        note="Scenes from a committed list (<=3 sources incl. a collection and a class group, 1-2 sensors, path lengths 1..3); local field "
+        "functions uninterpreted; SymRot quaternion model; dataframe output and style contents not modelled.",
+        design="3/C08",
+    ),
 }
 
 NOT_APPLICABLE = {
